@@ -399,6 +399,25 @@ func (x *Exec) applyContract(fr *frame, st *State, fc *FuncContract, sig *types.
 		}
 		st.ghost[gname[6:]] = vc.bind("g", v.T)
 	}
+	// Ghost variables a callee's postconditions talk about may be changed by the callee: they get
+	// fresh values constrained only by those postconditions (explicit "opt ghost:" updates aside).
+	gnames := map[string]bool{}
+	for _, e := range fc.Ensures {
+		x.eng.ghostNames(e.Expr, gnames, 0)
+	}
+	var gl []string
+	for n := range gnames {
+		gl = append(gl, n)
+	}
+	sort.Strings(gl)
+	for _, name := range gl {
+		if _, explicit := fc.Opts["ghost:"+name]; explicit {
+			continue
+		}
+		if gs, ok := x.eng.ghostSorts[name]; ok {
+			st.ghost[name] = vc.freshConst("gc_"+name, x.eng.smtSort(gs, vc.ar.Mode))
+		}
+	}
 	penv := &SpecEnv{x: x, st: st, old: pre, vars: post, inCall: true, pkg: env.pkg, pol: 1}
 	for _, e := range fc.Ensures {
 		t, err := x.evalBool(e.Expr, penv)
@@ -408,6 +427,50 @@ func (x *Exec) applyContract(fr *frame, st *State, fc *FuncContract, sig *types.
 		vc.assume(st.pc, t)
 	}
 	return res, nil
+}
+
+// ghostNames collects the ghost variables an expression reads (through spec macros as well).
+func (e *Engine) ghostNames(ex Expr, out map[string]bool, depth int) {
+	if depth > 20 || ex == nil {
+		return
+	}
+	switch t := ex.(type) {
+	case *ECall:
+		if t.Fun == "ghost" && len(t.Args) == 1 {
+			if id, ok := t.Args[0].(*EIdent); ok {
+				out[id.Name] = true
+			}
+			return
+		}
+		if sf := e.specFuncs[t.Fun]; sf != nil {
+			e.ghostNames(sf.Body.Expr, out, depth+1)
+		}
+		for _, a := range t.Args {
+			e.ghostNames(a, out, depth)
+		}
+	case *EUnary:
+		e.ghostNames(t.X, out, depth)
+	case *EBinary:
+		e.ghostNames(t.X, out, depth)
+		e.ghostNames(t.Y, out, depth)
+	case *ECond:
+		e.ghostNames(t.C, out, depth)
+		e.ghostNames(t.A, out, depth)
+		e.ghostNames(t.B, out, depth)
+	case *ESel:
+		e.ghostNames(t.X, out, depth)
+	case *EIndex:
+		e.ghostNames(t.X, out, depth)
+		e.ghostNames(t.I, out, depth)
+	case *ESlice:
+		e.ghostNames(t.X, out, depth)
+		e.ghostNames(t.Lo, out, depth)
+		e.ghostNames(t.Hi, out, depth)
+	case *EQuant:
+		e.ghostNames(t.Body, out, depth)
+	case *EStar:
+		e.ghostNames(t.X, out, depth)
+	}
 }
 
 // modTargets evaluates the modifies designators of a contract in env.
